@@ -226,6 +226,37 @@ pub fn execute(plan: &Plan, st: &mut Stats, trace: bool) -> Outcome {
             10 => run_vec::<KRgba>(plan, st, &mut fl, &mut counts, &mut viol_op),
             11 => run_vec::<KUv>(plan, st, &mut fl, &mut counts, &mut viol_op),
             12 => run_vec::<KUvw>(plan, st, &mut fl, &mut counts, &mut viol_op),
+            13..=18 if plan.elem == 3 => {
+                st.runs_zst += 1;
+                let cm = plan.kind >= 16;
+                let mut vo: Option<OpK> = None;
+                let mut cnt = (0u32, 0u32);
+                let mut exec_ops: Vec<OpK> = Vec::new();
+                let cb = |_: usize, op: Op, done: bool| {
+                    if done {
+                        cnt.0 += 1;
+                        exec_ops.push(op.k);
+                    } else {
+                        cnt.1 += 1;
+                    }
+                    if tok::has_violation() && vo.is_none() {
+                        vo = Some(op.k);
+                    }
+                };
+                match (plan.kind - 13) % 3 {
+                    0 => crate::zmat::run(crate::zmat::ZM2::Gone, cm, &plan.ops, cb),
+                    1 => crate::zmat::run(crate::zmat::ZM3::Gone, cm, &plan.ops, cb),
+                    _ => crate::zmat::run(crate::zmat::ZM4::Gone, cm, &plan.ops, cb),
+                }
+                counts.0 += cnt.0;
+                counts.1 += cnt.1;
+                for k in exec_ops {
+                    st.op_counts[(k as usize).min(N_OPK - 1)] += 1;
+                }
+                if vo.is_some() {
+                    viol_op = vo;
+                }
+            }
             13 => run_mat::<Fam2>(plan, false, st, &mut fl, &mut counts, &mut viol_op),
             14 => run_mat::<Fam3>(plan, false, st, &mut fl, &mut counts, &mut viol_op),
             15 => run_mat::<Fam4>(plan, false, st, &mut fl, &mut counts, &mut viol_op),
